@@ -966,12 +966,12 @@ def add(name, props, build, what, allow_bound=0, max_paths=20000):
 
 add("vm_binops", "C03,C04,C06,C01", t_binops, "every binary opcode applies its operation to (first pushed, second pushed) in that order")
 add("vm_unops", "C05,C01", t_unops, "Not/Neg/Test/Dup/Pop: Test keeps failures and otherwise yields the truthiness; stack effects")
-add("vm_resolve", "C12,C01", t_resolve, "identifier operands resolve: type name, then variable, then stored program (same interpreter), else an unbound-name failure value")
+add("vm_resolve", "C12,C08,C01", t_resolve, "identifier operands resolve: type name, then variable, then stored program (same interpreter), else an unbound-name failure value")
 add("vm_jmpcond", "C05,C10,C01", t_jmpcond, "JmpCond pops; jumps iff Bool == when, a failing condition counts as 'false'; other kinds fail; targets bounded", allow_bound=10000)
 add("vm_jmp", "C10,C01", t_jmp, "Jmp: target inside the block or at its end, otherwise an error", allow_bound=10000)
 add("vm_mklist", "C06,C01", t_mklist, "MkList(n) builds the list of the last n pushed values in push order")
 add("vm_mkdict", "C06,C01", t_mkdict, "MkDict(n), n <= 2: (key, value) pairs, keys must be strings; for a repeated key the entry that comes last in the source wins")
 add("vm_fmt", "C14,C01", t_fmt, "FmtString(n) concatenates its n string segments in push order; a non-string segment fails")
-add("vm_access", "C06,C12,C01", t_access, "m.k: the value stored under k wins over a method named k; absent field is an absent-field failure value; a.b on other kinds binds a method or fails")
+add("vm_access", "C06,C12,C08,C01", t_access, "m.k: the value stored under k wins over a method named k; absent field is an absent-field failure value; a.b on other kinds binds a method or fails")
 add("vm_call", "C12,C01", t_call, "Call on an identifier: bound function, then macro, then type constructor, else 'not callable'; arguments in source order")
 add("vm_method", "C12,C01", t_method_call, "obj.name(args): bound call through Access + Call")
